@@ -491,13 +491,15 @@ def load_known_findings():
                 except ValueError: pass
     return out
 
-def match_known(prop, cls, msg, scenario=None):
+def match_known(prop, cls, msg, scenario=None, flavour=None, plan_lines=None):
     for k in load_known_findings():
         if k.get('status') != 'known': continue
         if k.get('property') != prop: continue
         if k.get('class') and k['class'] != cls: continue
         if k.get('scenario') and scenario and k['scenario'] != scenario: continue
         if k.get('msg_regex') and not re.search(k['msg_regex'], msg or ''): continue
+        if k.get('flavour') and flavour and k['flavour'] != flavour: continue
+        if k.get('plan_regex') and not (plan_lines and re.search(k['plan_regex'], '\n'.join(plan_lines), re.M)): continue
         return k
     return None
 
@@ -509,7 +511,7 @@ def gate_violation(prop, f, do_shrink=True):
     if a['status'] != 'VIOL' or b['status'] != 'VIOL' or a['cls'] != b['cls'] or a['hash'] != b['hash']:
         return ('infra', 'violation %s of run %s did not reproduce identically in fresh processes (%s/%s, %s/%s)' % (f.cls, f.idx, a['cls'], b['cls'], a['hash'], b['hash']))
     cls = a['cls']; msg = a['msg']
-    kf = match_known(prop, cls, msg, f.scenario)
+    kf = match_known(prop, cls, msg, f.scenario, f.flavour, lines)
     if kf: return ('known', kf)
     minimised = lines; reruns = 0
     if do_shrink:
@@ -524,7 +526,7 @@ def gate_violation(prop, f, do_shrink=True):
     c = run_plan(f.flavour, minimised); d = run_plan(f.flavour, minimised)
     if c['status'] != 'VIOL' or c['cls'] != cls or d['status'] != 'VIOL' or d['cls'] != cls or c['hash'] != d['hash']:
         minimised = lines; c = a
-    kf = match_known(prop, cls, c['msg'], f.scenario)
+    kf = match_known(prop, cls, c['msg'], f.scenario, f.flavour, minimised)
     if kf: return ('known', kf)
     os.makedirs(REPLAYS, exist_ok=True)
     seed = [l for l in lines if l.startswith('seed')][0].split()[1]
